@@ -99,8 +99,69 @@ def to_sstr(x):
     return None
 
 
-def render(value, spec='', conv=None):
+def render_repr(value, interp=None):
+    """repr(value) as segments (ints, floats, strings, tuples/lists of those, message objects)."""
+    from .absint import AObj
+    if isinstance(value, AV) and not value.is_top:
+        return SStr([str(value.const)]) if value.is_const else SStr([Dec(value)])
+    if isinstance(value, FloatSym):
+        return SStr([Flt(value)])
+    if isinstance(value, (bool, int, float, str, bytes, type(None))):
+        return SStr([repr(value)])
+    if type(value).__name__ == 'StrSym':
+        return SStr([StrRepr(value)])
+    if isinstance(value, AList) and getattr(value, 'cls', None) is not None and interp is not None:
+        o, fn = interp.p.lookup_method(value.cls, '__repr__')
+        if fn is not None:
+            return to_sstr(interp.call_function(fn, [value], {}))
+    if isinstance(value, (tuple, list)) or (isinstance(value, AList) and not value.has_var()):
+        items = list(value.items) if isinstance(value, AList) else list(value)
+        kind = value.kind if isinstance(value, AList) else ('tuple' if isinstance(value, tuple) else 'list')
+        op, cl = ('(', ')') if kind == 'tuple' else ('[', ']')
+        segs = [op]
+        for i, it in enumerate(items):
+            r = render_repr(it, interp)
+            if r is None:
+                return None
+            if i:
+                segs.append(', ')
+            segs.append(r)
+        if kind == 'tuple' and len(items) == 1:
+            segs.append(',')
+        segs.append(cl)
+        return SStr(segs)
+    if isinstance(value, AObj) and interp is not None and value.cls is not None:
+        o, fn = interp.p.lookup_method(value.cls, '__repr__')
+        if fn is not None:
+            r = interp.call_function(fn, [value], {})
+            return to_sstr(r)
+    return None
+
+
+class StrRepr:
+    """repr() of a symbolic text (a quoted string literal)."""
+    def __init__(self, s):
+        self.s = s
+
+    def __repr__(self):
+        return f'<strrepr {self.s!r}>'
+
+
+def render(value, spec='', conv=None, interp=None):
     """format(value, spec) as segments, or None when not representable."""
+    if conv == 'r' and spec == '':
+        return render_repr(value, interp)
+    from .absint import AObj
+    if isinstance(value, AObj) and interp is not None and value.cls is not None and spec == '' and conv in (None, 's'):
+        o, fn = interp.p.lookup_method(value.cls, '__str__')
+        if fn is None:
+            o, fn = interp.p.lookup_method(value.cls, '__repr__')
+        if fn is not None:
+            return to_sstr(interp.call_function(fn, [value], {}))
+    if isinstance(value, (tuple, list)) and spec == '' and conv in (None, 's') and not all(isinstance(x, (int, float, str)) for x in value):
+        return render_repr(value, interp)
+    if isinstance(value, AList) and spec == '' and conv in (None, 's'):
+        return render_repr(value, interp)
     if isinstance(value, (SStr, str)) and spec == '' and conv in (None, 's'):
         return to_sstr(value)
     if isinstance(value, AV) and not value.is_top:
@@ -260,7 +321,7 @@ def fmt(interp, template, args, kwargs):
             val = kwargs[field]
         else:
             return Opaque('format field')
-        r = render(val, spec or '', conv)
+        r = render(val, spec or '', conv, interp)
         if r is None:
             return Opaque(f'format of {val!r}')
         segs.append(r)
